@@ -1359,6 +1359,8 @@ TARGETED: T.List[T.Tuple[str, T.Dict[str, T.Any]]] = [
     ("a.b(c).d(e, f: g)[0].h()\n", {'max_line_length': 20}),
     ("x = 1 \\\n", {}),                                            # idempotence:trailing-continuation
     ("x = f([ \\\n 'b'])\n", {}),                                 # idempotence:continuation-after-bracket
+    ("files(['a'] \\\n)\n", {}), ("files([ \\\n 'a'])\n", {}), ("files(['a'], \\\n)\n", {}),   # regression of 194f0bf
+    ("files(['b', 'a'], # c\n)\n", {'sort_files': True}), ("files([['b'], 'a'])\n", {'sort_files': True}),
 ]
 
 
